@@ -14,12 +14,14 @@ from collections import defaultdict
 from typing import Iterator, List, Set, Optional
 
 import os
+import re
 import glob
 
 from spil import Sid
 from spil import conf
 from spil.sid.pathops.pathconfig import get_path_config
 from spil.sid.read.finders.find_glob import FindByGlob
+from spil.sid.read.finders.find_list import glob2re
 from spil.util.exception import SpilException
 from spil.util.log import warn, debug, error
 
@@ -138,6 +140,12 @@ class FindInPaths(FindByGlob):
                             f'Consider narrowing the pattern, or implementing "typed_search_narrowing".'
                             f"Found: {sid.uri} -- Search: {search.uri}"
                         )
+                        continue
+                    # a file name pattern built from several fields can match the file of another Sid
+                    # ("char_*_model_WORK_*.ma" matches "char_x_model_WORK_model_PUBLISH_v001.ma"):
+                    # the found Sid itself must match the search.
+                    if not re.match(glob2re(str(search)), str(sid)):
+                        debug(f"Found Sid does not match the search. Found: {sid} -- Search: {search}")
                         continue
                 except SpilException as e:
                     debug(f"Path did not generate sid: {path}")
